@@ -15,24 +15,25 @@ import (
 )
 
 type FuncResult struct {
-	Key     string
-	Display string
-	Pkg     string
-	Props   []string
-	Obligs  []*Oblig
-	Notes   []string
-	Paths   int
-	Returns int
-	Panics  int
-	Capped  bool
-	Vacuous string
-	WallMs  int64
-	Error   string
-	Trusted bool
-	Specs   []string
-	Inputs  []string
-	fn      *ssa.Function
-	fc      *FuncContract
+	Key       string
+	Display   string
+	Pkg       string
+	Props     []string
+	Obligs    []*Oblig
+	Notes     []string
+	Paths     int
+	Returns   int
+	Panics    int
+	Capped    bool
+	Vacuous   string
+	WallMs    int64
+	Error     string
+	Trusted   bool
+	Specs     []string
+	Inputs    []string
+	fn        *ssa.Function
+	fc        *FuncContract
+	dryLeaves []string
 }
 
 var basePreamble = []string{
@@ -302,14 +303,29 @@ type VerifyOpts struct {
 }
 
 func (e *Engine) VerifyFunction(fn *ssa.Function, fc *FuncContract, opts VerifyOpts) *FuncResult {
-	bits := 0
+	n := 0
 	if v := fc.Opts["split"]; v != "" {
-		bits = atoi(v)
+		n = 1 << uint(atoi(v))
 	}
-	if bits == 0 {
-		return e.verifyShard(fn, fc, opts, 0, 0)
+	if n <= 1 {
+		return e.verifyShard(fn, fc, opts, 0, 0, nil)
 	}
-	n := 1 << uint(bits)
+	// dry pre-pass: enumerate the path tree without a solver, deal the leaves
+	// round-robin to the shards
+	dry := e.verifyShard(fn, fc, opts, -1, 0, nil)
+	if dry.Error != "" || len(dry.dryLeaves) < 2*n {
+		return e.verifyShard(fn, fc, opts, 0, 0, nil)
+	}
+	owners := map[string]uint64{}
+	leafCount := map[string]int{}
+	for i, leaf := range dry.dryLeaves {
+		bit := uint64(1) << uint(i%n)
+		for j := 0; j <= len(leaf); j++ {
+			owners[leaf[:j]] |= bit
+			leafCount[leaf[:j]]++
+		}
+	}
+	gLeafCounts.Store(fn, leafCount)
 	parts := make([]*FuncResult, n)
 	var wg sync.WaitGroup
 	for i := 0; i < n; i++ {
@@ -318,7 +334,7 @@ func (e *Engine) VerifyFunction(fn *ssa.Function, fc *FuncContract, opts VerifyO
 			defer wg.Done()
 			shardSem <- struct{}{}
 			defer func() { <-shardSem }()
-			parts[i] = e.verifyShard(fn, fc, opts, i, bits)
+			parts[i] = e.verifyShard(fn, fc, opts, i, n, owners)
 		}(i)
 	}
 	wg.Wait()
@@ -326,6 +342,7 @@ func (e *Engine) VerifyFunction(fn *ssa.Function, fc *FuncContract, opts VerifyO
 }
 
 var shardSem = make(chan struct{}, 16)
+var gLeafCounts sync.Map
 
 func mergeResults(parts []*FuncResult) *FuncResult {
 	res := parts[0]
@@ -393,7 +410,7 @@ func mergeResults(parts []*FuncResult) *FuncResult {
 	return res
 }
 
-func (e *Engine) verifyShard(fn *ssa.Function, fc *FuncContract, opts VerifyOpts, shard, shardBits int) (res *FuncResult) {
+func (e *Engine) verifyShard(fn *ssa.Function, fc *FuncContract, opts VerifyOpts, shard, nshards int, owners map[string]uint64) (res *FuncResult) {
 	t0 := time.Now()
 	res = &FuncResult{Key: ckey(fc.Pkg, fc.Key), Display: displayName(fn), Pkg: fc.Pkg, Props: fc.Props, fn: fn, fc: fc}
 	defer func() {
@@ -426,11 +443,19 @@ func (e *Engine) verifyShard(fn *ssa.Function, fc *FuncContract, opts VerifyOpts
 	if v := fc.Opts["livetimeout"]; v != "" {
 		opts.LiveTimeoutMs = atoi(v)
 	}
-	sess := NewSession(pre, opts.LiveTimeoutMs)
+	var sess *Session
+	if shard < 0 {
+		sess = NewDrySession()
+	} else {
+		sess = NewSession(pre, opts.LiveTimeoutMs)
+	}
 	defer sess.Close()
 	x := &Exec{eng: e, sess: sess, top: fn, fc: fc, obligs: map[string]*Oblig{}, declared: map[string]bool{}, usedSpecs: map[string]bool{},
 		notes: map[string]bool{}, pathCap: opts.PathCap, safetyNames: map[ssa.Instruction]string{}, raceTimeout: opts.RaceTimeoutS,
-		inlineDepth: opts.InlineDepth, curFnName: displayName(fn), shard: shard, shardBits: shardBits}
+		inlineDepth: opts.InlineDepth, curFnName: displayName(fn), shard: shard, nshards: nshards, owners: owners}
+	if lc, ok := gLeafCounts.Load(fn); ok {
+		x.leafCount = lc.(map[string]int)
+	}
 	if v := fc.Opts["pathcap"]; v != "" {
 		x.pathCap = atoi(v)
 	}
@@ -497,6 +522,7 @@ func (e *Engine) verifyShard(fn *ssa.Function, fc *FuncContract, opts VerifyOpts
 	}
 	coverDone := false
 	x.runFunction(st, fr, args, func(st2 *State, o Outcome) {
+		x.leaf(st2)
 		if o.Panic {
 			x.panicPaths++
 			if fc.NoPanic {
@@ -550,7 +576,11 @@ func (e *Engine) verifyShard(fn *ssa.Function, fc *FuncContract, opts VerifyOpts
 			for _, p := range pends {
 				gs = append(gs, p.goal)
 			}
-			if r, ms, _ := sess.CheckNot(sAnd(gs...), nil); r == "unsat" {
+			r, ms, _ := sess.CheckNot(sAnd(gs...), nil)
+			x.combMs += ms
+			x.combN++
+			if r == "unsat" {
+				x.combOK++
 				for _, p := range pends {
 					p.ob.Instances++
 					p.ob.Unsat++
@@ -598,6 +628,10 @@ func (e *Engine) verifyShard(fn *ssa.Function, fc *FuncContract, opts VerifyOpts
 	res.Returns = x.returnPaths
 	res.Panics = x.panicPaths
 	res.Capped = x.capped
+	res.dryLeaves = x.dryLeaves
+	if os.Getenv("GOVC_DEBUG") != "" {
+		fmt.Fprintf(os.Stderr, "  shard %d: prune %d checks %dms (%d pruned); combined-ensures %d checks %dms (%d ok); live checks %d\n", shard, x.pruneN, x.pruneMs, x.pruned, x.combN, x.combMs, x.combOK, sess.nchecks)
+	}
 	return
 }
 
